@@ -11,7 +11,8 @@ Construction rules (sound before complete):
   unquoted token;
 * symbolic links are siblings of their targets (so that "relative the location of the suite file" has one reading);
 * `**` is only used below directories that contain no directory links;
-* faults (missing file, double inclusion, cycle, syntax error, directory as case, bad command line) are added to a
+* faults (missing file, double inclusion, cycle, syntax error, undecodable suite file, directory as case, bad command
+  line) are added to a
   hierarchy that is valid without them; at most one fault per hierarchy.
 """
 import posixpath
@@ -22,7 +23,7 @@ SUCCESS_OUTCOMES = ['PASS', 'SKIPPED', 'XFAIL']
 EXECUTING_FAILURES = ['FAIL', 'XPASS', 'HARD_ERROR']
 NON_EXECUTING_FAILURES = ['VALIDATION_ERROR', 'SYNTAX_ERROR', 'ACT_SYNTAX_ERROR', 'FILE_ACCESS_ERROR', 'UNDECODABLE']
 MIXED_OUTCOMES = (['PASS', 'PASS', 'PASS', 'SKIPPED', 'XFAIL', 'XFAIL'] + EXECUTING_FAILURES + ['FAIL', 'XPASS']
-                  + NON_EXECUTING_FAILURES + ['ACT_SYNTAX_ERROR'])
+                  + NON_EXECUTING_FAILURES)
 N_VARIANTS = {'PASS': 2, 'FAIL': 2, 'XFAIL': 2, 'XPASS': 1, 'SKIPPED': 2, 'VALIDATION_ERROR': 3, 'HARD_ERROR': 3,
               'SYNTAX_ERROR': 3, 'ACT_SYNTAX_ERROR': 2, 'FILE_ACCESS_ERROR': 1, 'UNDECODABLE': 2,
               'PRE_PROCESS_ERROR': 1, 'DIR': 1}
@@ -31,7 +32,8 @@ PP_SH = 'case "$1" in *ppf*.case) exit 1;; esac\ncat "$1"\n'
 PP_LINE = 'preprocessor = sh {HOME}/pp.sh'
 
 FAULTS = ['missing_case', 'missing_case_link', 'missing_suite', 'dir_no_default', 'double', 'double', 'double',
-          'cycle_root', 'cycle_up', 'syntax_section', 'syntax_tokens', 'syntax_instruction', 'case_dir', 'bad_root']
+          'cycle_root', 'cycle_up', 'syntax_section', 'syntax_tokens', 'syntax_instruction', 'syntax_instruction',
+          'case_dir', 'bad_root', 'bad_root', 'suite_undecodable']
 
 
 # ---- contents of a case file ---------------------------------------------------------------------------------
@@ -142,8 +144,10 @@ class _Builder:
             o = d(st.sampled_from(SUCCESS_OUTCOMES + ['PASS']))
         elif self.mood == 'one_bad':
             o = d(st.sampled_from(SUCCESS_OUTCOMES + ['PASS']))
+        elif allow_pp and self.chance(2, 5):
+            o = 'PRE_PROCESS_ERROR'
         else:
-            o = d(st.sampled_from(MIXED_OUTCOMES + (['PRE_PROCESS_ERROR'] * 4 if allow_pp else [])))
+            o = d(st.sampled_from(MIXED_OUTCOMES))
         return o
 
     def add_case(self, path, o=None, allow_pp=False, decoy=False):
@@ -173,6 +177,12 @@ class _Builder:
         # --- cases
         n_lines = d(_w([(0, 2), (1, 5), (2, 5), (3, 2)])) if depth > 1 else d(_w([(0, 2), (1, 4), (2, 5), (3, 3)]))
         budget = 4
+        if rec['pp'] and self.mood == 'mixed' and self.chance(2, 3):
+            name = 'ppf%d.case' % self.uid()
+            self.add_case(posixpath.join(sdir, name), 'PRE_PROCESS_ERROR')
+            rec['cases'].append(name)
+            budget -= 1
+            self.total_budget -= 1
         for _ in range(n_lines):
             if budget <= 0 or self.total_budget <= 0:
                 break
@@ -465,6 +475,8 @@ class _Builder:
                 if how == 'dot':
                     ref = './' + ref
             self._insert(t['suites'], ref)
+        elif fault == 'suite_undecodable':
+            t['bad_bytes'] = True
         elif fault == 'syntax_section':
             t['tail'] = d(st.sampled_from(['[nosuch]', '[case]', '[suite]\nx.suite', '[nosuch]\nx']))
         elif fault == 'syntax_tokens':
@@ -563,7 +575,7 @@ def hierarchies(draw, tier='quick'):
     elif fault is not None:
         fault = b.apply_fault(fault)
     for rec in b.suites:
-        b.add(rec['path'], 'suite', b.render(rec))
+        b.add(rec['path'], 'badsuite' if rec.get('bad_bytes') else 'suite', b.render(rec))
     if b.has_pp:
         b.add('pp.sh', 'raw', PP_SH)
     nodes = b.nodes
